@@ -25,4 +25,10 @@ CASES = [
      "edits": [("apps/similarity.py", "    state = _get_state(graph, n_mean, loss)\n\n    click = orbit + [0] * (modes - len(orbit))", "    if photons > modes:\n        return 0.0\n    state = _get_state(graph, n_mean, loss)\n\n    click = orbit + [0] * (modes - len(orbit))")]},
     {"id": "twin-orbit-probability-fit-guard-on-orbit-length", "expect": "silent",
      "edits": [("apps/similarity.py", "    state = _get_state(graph, n_mean, loss)\n\n    click = orbit + [0] * (modes - len(orbit))", "    if len(orbit) > modes:\n        return 0.0\n    state = _get_state(graph, n_mean, loss)\n\n    click = orbit + [0] * (modes - len(orbit))")]},
+    {"id": "mean-number-of-the-other-detector", "expect": "fire", "key": "C20.passive",
+     "edits": [("apps/train/param.py", "        if self.threshold:\n            return np.sum(self.mean_clicks_by_mode(params))\n\n        return np.sum(self.mean_photons_by_mode(params))", "        if not self.threshold:\n            return np.sum(self.mean_clicks_by_mode(params))\n\n        return np.sum(self.mean_photons_by_mode(params))")]},
+    {"id": "rescale-for-the-other-detector", "expect": "fire", "key": "C20.passive",
+     "edits": [("apps/train/param.py", "    scale = rescale_tor(A, n_mean) if threshold else rescale(A, n_mean)", "    scale = rescale(A, n_mean) if threshold else rescale_tor(A, n_mean)")]},
+    {"id": "twin-mean-number-as-conditional-expression", "expect": "silent",
+     "edits": [("apps/train/param.py", "        if self.threshold:\n            return np.sum(self.mean_clicks_by_mode(params))\n\n        return np.sum(self.mean_photons_by_mode(params))", "        by_mode = self.mean_photons_by_mode(params) if not self.threshold else self.mean_clicks_by_mode(params)\n        return np.sum(by_mode)")]},
 ]
